@@ -30,17 +30,41 @@ def build(outdir, main="static_main.cpp", defines=(), exe="drv", timeout=300):
     return os.path.join(outdir, exe), None
 
 
+class DriverDied(RuntimeError):
+    pass
+
+
 class Driver:
     def __init__(self, exe, args=()):
-        self.p = subprocess.Popen([exe] + list(args), stdin=subprocess.PIPE, stdout=subprocess.PIPE, text=True)
+        self.exe, self.args = exe, list(args)
+        self.crashes = []                   # (question, exit status) of every question the process died on
+        self.p = subprocess.Popen([exe] + self.args, stdin=subprocess.PIPE, stdout=subprocess.PIPE, text=True)
 
     def ask(self, line):
-        self.p.stdin.write(line + "\n")
-        self.p.stdin.flush()
-        out = self.p.stdout.readline()
+        try:
+            self.p.stdin.write(line + "\n")
+            self.p.stdin.flush()
+            out = self.p.stdout.readline()
+        except BrokenPipeError:
+            out = ""
         if not out:
-            raise RuntimeError(f"driver died on: {line[:200]} (exit {self.p.poll()})")
+            raise DriverDied(f"driver died on: {line[:200]} (exit {self.p.poll()})")
         return out.rstrip("\n")
+
+    def ask_or_crash(self, line, greeting=None):
+        """Like ask, but a crash of the generated code is an answer ("CRASH <status>"): the process is started again."""
+        try:
+            return self.ask(line)
+        except DriverDied:
+            try:
+                status = self.p.wait(timeout=10)
+            except Exception:
+                self.p.kill(); status = None
+            self.crashes.append((line, status))
+            self.p = subprocess.Popen([self.exe] + self.args, stdin=subprocess.PIPE, stdout=subprocess.PIPE, text=True)
+            if greeting is not None:
+                self.p.stdout.readline()
+            return f"CRASH {status}"
 
     def close(self):
         try:
